@@ -2,6 +2,7 @@
 package netpoll
 
 import (
+	"syscall"
 	"context"
 	"fmt"
 	"io"
@@ -76,6 +77,13 @@ func vcScenC04(t *vcTrial) {
 	t.P("transient_errno_permille", faultPM)
 	if faultPM > 0 {
 		fp := vcTransientFaults(r.next(), faultPM)
+		// a readable event followed by an empty read (EAGAIN/EINTR) is possible on a live connection
+		// (spurious wake-up); it is not once the peer has sent its FIN, where the poller drains to
+		// EOF - the read faults are therefore switched off before either side closes (vc04StopReadFaults)
+		fp.Rules = append(fp.Rules,
+			&vcFaultRule{Site: vfltReadv, Errno: syscall.EAGAIN, FD: -1, PerMille: faultPM / 2},
+			&vcFaultRule{Site: vfltReadv, Errno: syscall.EINTR, FD: -1, PerMille: faultPM / 4})
+		vc04ReadFaults.Store(fp)
 		vcSetFaults(fp)
 		defer func() {
 			vcSetFaults(nil)
@@ -171,6 +179,7 @@ func vcScenC04(t *vcTrial) {
 			t.Stat("write_errors", 1)
 			t.P("write_error", sender.Err.Error())
 		}
+		vc04StopReadFaults()
 		cli.Close()
 		select {
 		case <-hdone:
@@ -207,6 +216,7 @@ func vcScenC04(t *vcTrial) {
 				sender.Step(int(uint64(total)-sender.Pos), 40)
 			}
 			sender.Flush()
+			vc04StopReadFaults()
 			rec.Conn.Close()
 		}()
 		rr := vfNewRng(r.next())
@@ -289,4 +299,22 @@ func vcScenC04(t *vcTrial) {
 	if rd != nil {
 		t.P("reader_mix", rd.Mix)
 	}
+}
+
+var vc04ReadFaults atomic.Value // *vcFaultPlan of the running trial
+
+// vc04StopReadFaults removes the read-side rules from the running plan (the sendmsg rule stays).
+func vc04StopReadFaults() {
+	fp, _ := vc04ReadFaults.Load().(*vcFaultPlan)
+	if fp == nil {
+		return
+	}
+	var keep []*vcFaultRule
+	for _, ru := range fp.Rules {
+		if ru.Site != vfltReadv {
+			keep = append(keep, ru)
+		}
+	}
+	vcSetFaults(&vcFaultPlan{Seed: fp.Seed, Rules: keep})
+	time.Sleep(200 * time.Microsecond) // a read that was already past the hook finishes
 }
